@@ -256,25 +256,34 @@ def impl_traj(case):
     from pyr import frac
     pyr.reset_pyrates()
     try:
-        net = build_lin(case)
-        dt = float(Fr(case["dt"])); T = case["steps"] * dt; dts = case["ss"] * dt
-        outputs = {}
-        for j in range(len(case["nodes"])):
-            o = OPN[case["nodes"][j].get("cls", 0)]
-            outputs[f"x{j}"] = f"n{j}/{o}/x"; outputs[f"v{j}"] = f"n{j}/{o}/v"
-        inputs = {f"n0/{OPN[case['nodes'][0].get('cls', 0)]}/inp": np.array([float(Fr(u)) for u in case["u"]])} if case["u"] else None
-        kw = dict(case.get("kwargs", {}))
+        fn = _fname("t")
+        def one(c, file_name):
+            net = build_lin(c)
+            dt = float(Fr(c["dt"])); T = c["steps"] * dt; dts = c["ss"] * dt
+            outputs = {}
+            for j in range(len(c["nodes"])):
+                o = OPN[c["nodes"][j].get("cls", 0)]
+                outputs[f"x{j}"] = f"n{j}/{o}/x"; outputs[f"v{j}"] = f"n{j}/{o}/v"
+            inputs = {f"n0/{OPN[c['nodes'][0].get('cls', 0)]}/inp": np.array([float(Fr(u)) for u in c["u"]])} if c["u"] else None
+            kw = dict(c.get("kwargs", {}))
+            res = net.run(T, dt, sampling_step_size=dts, solver=c["solver"], backend=c["backend"], vectorize=c["vectorize"],
+                          inputs=inputs, outputs=outputs, float_precision=c["precision"], in_place=False, file_name=file_name,
+                          inplace_vectorfield=c["ipv"], clear=True, verbose=False, **kw)
+            cols = [k for j in range(len(c["nodes"])) for k in (f"x{j}", f"v{j}")]
+            return np.asarray(res[cols].values, dtype=np.float64)
         try:
-            res = net.run(T, dt, sampling_step_size=dts, solver=case["solver"], backend=case["backend"], vectorize=case["vectorize"],
-                          inputs=inputs, outputs=outputs, float_precision=case["precision"], in_place=False, file_name=_fname("t"),
-                          inplace_vectorfield=case["ipv"], clear=True, verbose=False, **kw)
+            vals = one(case, fn)
         except NotImplementedError as e:
             return dict(raised="NotImplementedError", msg=str(e)[:120])
-        cols = [c for j in range(len(case["nodes"])) for c in (f"x{j}", f"v{j}")]
-        vals = np.asarray(res[cols].values, dtype=np.float64)
         if case.get("support"):
             return dict(rows=[[float(v) for v in r] for r in vals])
-        return dict(rows=[[frac(v) for v in r] for r in vals])
+        out = dict(rows=[[frac(v) for v in r] for r in vals])
+        if case.get("second"):
+            # the same model again in the SAME process (no cache reset in between), same step settings, other parameter values and inputs;
+            # python backends re-use the file name as a user would, Fortran gets a fresh one (re-using it is finding D29 of C13)
+            vals2 = one(dict(case, **case["second"]), fn if case["backend"] != "fortran" else _fname("t"))
+            out["rows2"] = [[frac(v) for v in r] for r in vals2]
+        return out
     finally:
         pyr.reset_pyrates()
 
@@ -476,24 +485,27 @@ def msum(ms):
     return r
 
 def lin_abs(case):
-    """|coefficient| of every term of the linear right-hand side as separate contributions (incl. the delayed edge, whatever its delay)"""
-    nn = len(case["nodes"]); M = [[Fr(0)] * (2 * nn) for _ in range(2 * nn)]
+    """|coefficient| of every term of the linear right-hand side as separate contributions (incl. the delayed edge, whatever its delay),
+    and the largest denominator among the contributions"""
+    nn = len(case["nodes"]); M = [[Fr(0)] * (2 * nn) for _ in range(2 * nn)]; D = [[1] * (2 * nn) for _ in range(2 * nn)]
+    def add(i, j, c):
+        c = Fr(c); M[i][j] += abs(c); D[i][j] = max(D[i][j], c.denominator)
     for j, nd in enumerate(case["nodes"]):
-        M[2 * j][2 * j] += abs(Fr(nd["a"])); M[2 * j + 1][2 * j] += abs(Fr(nd["h"])); M[2 * j + 1][2 * j + 1] += abs(Fr(nd["c"]))
+        add(2 * j, 2 * j, nd["a"]); add(2 * j + 1, 2 * j, nd["h"]); add(2 * j + 1, 2 * j + 1, nd["c"])
         if nd.get("cls", 0) == 0:
-            M[2 * j][2 * j + 1] += abs(Fr(nd["g"]))
+            add(2 * j, 2 * j + 1, nd["g"])
     for s_, t_, w in case["edges"]:
-        M[2 * t_][2 * s_] += abs(Fr(w))
+        add(2 * t_, 2 * s_, w)
     if case.get("delay"):
         s_, t_, w, _d = case["delay"]
-        M[2 * t_][2 * s_ + 1] += abs(Fr(w))
-    return M
+        add(2 * t_, 2 * s_ + 1, w)
+    return M, D
 
 def traj_exact(case):
     """bound propagation for Euler and Heun (both corrector conventions have the same bound) over all steps any backend executes"""
-    M = lin_abs(case); n = len(M); dt = Mag.of(case["dt"]); half = Mag(Fr(1, 2), 2)
+    (M, DD) = lin_abs(case); n = len(M); dt = Mag.of(case["dt"]); half = Mag(Fr(1, 2), 2)
     U = Mag(max([abs(Fr(x)) for x in case["u"]] + [Fr(0)]), 2) if case["u"] else None
-    coef = [[Mag(M[i][j], 2) for j in range(n)] for i in range(n)]
+    coef = [[Mag(M[i][j], DD[i][j]) for j in range(n)] for i in range(n)]
     def f(B):
         return [msum([coef[i][j] * B[j] for j in range(n) if M[i][j]]) + (U if (U and i == 0) else ZERO) for i in range(n)]
     for variant in ("euler", "heun"):
@@ -576,23 +588,46 @@ def lin_matrix(case):
         M[2 * t][2 * s] += Fr(w)
     return M
 
-def gen_lin_model(rng, with_input):
+def _redraw_lin(rng, case, scale):
+    """new node values, edge weights (same topology) and input samples for a linear model"""
+    den = rng.choice([1, 2])
+    val = lambda lo, hi: str(Fr(rng.randint(lo * den, hi * den) // max(1, scale), den))
+    nz = lambda: str(Fr(rng.choice([-3, -2, -1, 1, 2, 3]), den))
+    nodes = [dict(nd, a=val(-1, 2), g=val(-1, 1), h=val(-1, 1), c=val(-1, 2), x=val(-2, 2), v=val(-2, 2)) for nd in case["nodes"]]
+    edges = [[s_, t_, nz()] for s_, t_, _w in case["edges"]]
+    u = [str(Fr(rng.randint(-8, 8), 2)) for _ in case["u"]]
+    if u and len(set(u[:case["steps"]])) < 2:
+        u[1] = str(Fr(u[0]) + 1)                       # really time dependent
+    return dict(case, nodes=nodes, edges=edges, u=u)
+
+def gen_lin_model(rng, with_input, second=False):
+    """rows >= 2 (mostly >= 3), store_step 1..3 also with inputs: a wrong step counter after the first stored block shows from row 2 on"""
+    nn = rng.randint(1, 3)
+    pairs = [(s_, t_) for s_ in range(nn) for t_ in range(nn)]
+    rng.shuffle(pairs)
+    ss = rng.choice([1, 2, 2, 3])
+    rows = rng.choice([2, 3, 3, 4])
+    steps = rows * ss
+    if ss >= 3 and rng.random() < 0.3:
+        steps -= 1                                     # not a multiple: ceil(steps/ss) == round(T/dts) still (the row count is C03's subject)
+    dt = Fr(1, rng.choice([2, 2, 4]))
+    base = dict(kind="traj", nodes=[dict() for _ in range(nn)], edges=[[s_, t_, "1"] for s_, t_ in pairs[:rng.randint(0 if nn == 1 else 1, min(3, len(pairs)))]],
+                dt=str(dt), steps=steps, ss=ss, u=["0"] * (steps + ss + 2) if with_input else [])
+    tries = 0
     while True:
-        nn = rng.randint(1, 3)
-        nodes = [dict(a=dy(rng, -2, 4, 2), g=dy(rng, -2, 2, 2), h=dy(rng, -2, 2, 2), c=dy(rng, -1, 3, 2), x=dy(rng, -4, 4, 2), v=dy(rng, -4, 4, 2))
-                 for _ in range(nn)]
-        pairs = [(s, t) for s in range(nn) for t in range(nn)]
-        rng.shuffle(pairs)
-        edges = [[s, t, str(Fr(rng.choice([-3, -2, -1, 1, 2, 3]), 2))] for s, t in pairs[:rng.randint(0 if nn == 1 else 1, min(3, len(pairs)))]]
-        dt = Fr(1, rng.choice([2, 4, 8]))
-        ss = rng.choice([1, 1, 2, 3, 4])
-        steps = rng.randint(max(2, ss + 1), 8)
-        if steps % ss != 0 and (steps % ss) * 2 <= ss:          # keep ceil(steps/ss) == round(T/dts): the row count is C03's subject
-            steps += ss - steps % ss
-        u = [str(Fr(rng.randint(-8, 8), 2)) for _ in range(steps + ss + 2)] if with_input else []
-        case = dict(kind="traj", nodes=nodes, edges=edges, dt=str(dt), steps=steps, ss=ss, u=u)
-        if -(-case["steps"] // ss) >= 2 and traj_exact(case):
-            return case          # (a run with ONE stored row and >= 2 outputs raises in run(): np.squeeze; not a backend matter)
+        tries += 1
+        case = _redraw_lin(rng, base, 1 + tries // 40)
+        if not traj_exact(case):
+            continue
+        if second:                                     # a second parameterisation of the SAME structure, run in the same process
+            for _ in range(60):
+                c2 = _redraw_lin(rng, base, 1 + tries // 40)
+                if traj_exact(c2) and (c2["nodes"] != case["nodes"] or c2["u"] != case["u"]):
+                    case["second"] = dict(nodes=c2["nodes"], edges=c2["edges"], u=c2["u"])
+                    break
+            else:
+                continue
+        return case          # (a run with ONE stored row and >= 2 outputs raises in run(): np.squeeze; not a backend matter)
 
 def gen_vec_model(rng, with_input, delay):
     """two structural classes x 2-4 units; a dense block (-> matvec) and sparse extra edges (-> indexed assignment)"""
@@ -687,7 +722,7 @@ def generate(ctx):
     # trajectories
     n_tr, n_tr_f = (10, 2) if q else (140, 12)
     for i in range(n_tr):
-        m = gen_lin_model(rng, with_input=(i % 2 == 0))
+        m = gen_lin_model(rng, with_input=(i % 2 == 0), second=(i % 3 != 2))
         nn = len(m["nodes"])
         for b in PY_BACKENDS + (["fortran"] if i < n_tr_f else []):
             for sv in SOLVERS[b]:
@@ -865,6 +900,11 @@ def entries(case, out):
         sv = "Euler" if case["solver"] == "euler" else "Heun"
         es.append(("T", f"({BK[case['backend']]}, {sv}, {clin(case)}, {cq(case['dt'])}, {case['steps']}, {case['ss']}, {y0}, "
                         f"{clist([crow(r) for r in out['rows']])})"))
+        if "rows2" in out:
+            c2 = dict(case, **case["second"])
+            y2 = crow([nd[kk] for nd in c2["nodes"] for kk in ("x", "v")])
+            es.append(("T", f"({BK[case['backend']]}, {sv}, {clin(c2)}, {cq(case['dt'])}, {case['steps']}, {case['ss']}, {y2}, "
+                            f"{clist([crow(r) for r in out['rows2']])})"))
     elif k == "hooks":
         base = out["start"]
         pr = lambda l: clist([f"({a}, {b})" for a, b in l])
